@@ -120,6 +120,8 @@ def build(stack, seed_override="keep"):
         ds = apply_layer(ds, layer)
     if stack.get("seeded"):
         ds = apply_seeded(ds, stack["seeded"], seed_override)
+    if stack.get("above_seeded"):
+        ds = apply_seeded(ds, stack["above_seeded"], seed_override)
     for layer in stack.get("above", []):
         ds = apply_layer(ds, layer)
     return ds
@@ -149,4 +151,5 @@ def sig(stack):
         elif "transforms" in s:
             inner = ",".join(s["transforms"])
     return (f"{stack['root']['kind']}[{stack['root']['n']}]" + "".join("<" + l["t"] for l in stack.get("below", [])) +
-            (f"<{s['w']}({inner})" if s else "") + "".join("<" + l["t"] for l in stack.get("above", [])))
+            (f"<{s['w']}({inner})" if s else "") + (f"<{stack['above_seeded']['w']}(seeded)" if stack.get("above_seeded") else "") +
+            "".join("<" + l["t"] for l in stack.get("above", [])))
